@@ -11,6 +11,9 @@ pub enum Scalar {
     F32,
     F64,
     Bool,
+    /// 64-bit integers (naga: SHADER_INT64); the generator has no Rust mapping for them and refuses
+    I64,
+    U64,
 }
 
 impl Scalar {
@@ -21,6 +24,8 @@ impl Scalar {
             Scalar::F32 => "f32",
             Scalar::F64 => "f64",
             Scalar::Bool => "bool",
+            Scalar::I64 => "i64",
+            Scalar::U64 => "u64",
         }
     }
     pub fn rust(self) -> &'static str {
@@ -30,7 +35,7 @@ impl Scalar {
     pub fn width(self) -> u32 {
         match self {
             Scalar::I32 | Scalar::U32 | Scalar::F32 => 4,
-            Scalar::F64 => 8,
+            Scalar::F64 | Scalar::I64 | Scalar::U64 => 8,
             Scalar::Bool => 1,
         }
     }
@@ -281,6 +286,8 @@ pub fn denote_wgsl(t: &Ty) -> Denotation {
             Scalar::F32 => ('f', 4),
             Scalar::F64 => ('f', 8),
             Scalar::Bool => ('b', 1),
+            Scalar::I64 => ('i', 8),
+            Scalar::U64 => ('u', 8),
         }
     }
     match t {
@@ -384,6 +391,12 @@ pub fn denote_rust(ty: &str) -> Result<Denotation, String> {
             "IVec2" => Some(('i', 4, vec![2])),
             "IVec3" => Some(('i', 4, vec![3])),
             "IVec4" => Some(('i', 4, vec![4])),
+            "I64Vec2" => Some(('i', 8, vec![2])),
+            "I64Vec3" => Some(('i', 8, vec![3])),
+            "I64Vec4" => Some(('i', 8, vec![4])),
+            "U64Vec2" => Some(('u', 8, vec![2])),
+            "U64Vec3" => Some(('u', 8, vec![3])),
+            "U64Vec4" => Some(('u', 8, vec![4])),
             "Mat2" => Some(('f', 4, vec![2, 2])),
             "Mat3" => Some(('f', 4, vec![3, 3])),
             "Mat4" => Some(('f', 4, vec![4, 4])),
@@ -472,7 +485,7 @@ pub fn vertex_format_name(t: &Ty) -> Option<String> {
         Scalar::F64 => "Float64",
         Scalar::I32 => "Sint32",
         Scalar::U32 => "Uint32",
-        Scalar::Bool => return None,
+        Scalar::Bool | Scalar::I64 | Scalar::U64 => return None,
     };
     Some(if n == 1 { base.to_string() } else { format!("{base}x{n}") })
 }
